@@ -115,7 +115,7 @@ func paiOK(c *PPAIs, offs int) bool {
 }
 
 func contOK(c *PContacts, offs int) bool {
-	return 0 <= c.N && c.N <= offs && within(c.LastHVal, offs) && (c.N >= len(c.Vals) || fbZero(&c.last)) && sep(c, c.Vals) &&
+	return 0 <= c.N && c.N <= offs && within(c.LastHVal, offs) && (c.N >= len(c.Vals) || fbZero(&c.last)) && blockSep(c, c.Vals) &&
 		fbOK(&c.last, offs, c.last.soffs) &&
 		(c.N >= len(c.Vals) || (c.Vals[c.N].state != fbFIN && slotOK(&c.Vals[c.N], offs, c.LastHVal, c.N))) &&
 		(c.N < len(c.Vals) || c.last.state == fbFIN || slotOK(&c.last, offs, c.LastHVal, c.N)) &&
@@ -128,3 +128,7 @@ func sep(a, b interface{}) bool { return sepImpl(a, b) }
 
 // sameSlice reports that two slices have the same backing array position, length and capacity.
 func sameSlice(a, b interface{}) bool { return sameSliceImpl(a, b) }
+
+// blockSep: a and b lie in different allocation blocks of the verifier's memory model (an array-typed
+// struct field counts as a block of its own). Executable twin: disjoint memory.
+func blockSep(a, b interface{}) bool { return sepImpl(a, b) }
